@@ -40,6 +40,7 @@ READ_INPUT = "yash-builtin/src/read/input.rs"
 READ_MAIN = "yash-builtin/src/read.rs"
 SEMANTICS = "yash-env/src/semantics.rs"
 REDIR = "yash-semantics/src/redir.rs"
+KEYWORD = "yash-syntax/src/parser/lex/keyword.rs"
 
 BYTE_ESC = {"n": 10, "t": 9, "r": 13, "0": 0, "\\": 92, "'": 39, '"': 34}
 INT = r"(?:0[xX][0-9a-fA-F_]+|0[oO][0-7_]+|0[bB][01_]+|[0-9][0-9_]*?)(?:_?[iu](?:8|16|32|64|128|size))?"
@@ -176,6 +177,41 @@ def undo_reversed(h):
     h.fail(f"cannot classify {where}: iteration expression `{fors[0].strip()}`")
 
 
+def keyword_tables(h):
+    """(all reserved words, the clause-delimiting ones) of yash-syntax, as their literal strings:
+    the arms `Name => "text"` of `Keyword::as_str`, and the names for which `is_clause_delimiter`
+    is true (`A | B => true` arms in any order / grouping, or `matches!(self, A | B)`)"""
+    src = strip_comments(h.read(KEYWORD))
+    body = fn_body(h, src, "as_str", KEYWORD)
+    arms = re.findall(r"\b(?:Keyword::|Self::)?(\w+)\s*=>\s*\"((?:[^\"\\]|\\.)*)\"", body)
+    if len(arms) < 10 or len({a for a, _ in arms}) != len(arms):
+        h.fail(f"cannot read the arms of Keyword::as_str in {KEYWORD} (found {arms})")
+    names = dict(arms)
+    enum = h.item_body(src, r"\bpub\s+enum\s+Keyword\b", f"enum Keyword in {KEYWORD}")
+    variants = re.findall(r"^\s*(\w+)\s*,", re.sub(r"#\[[^\]]*\]", "", enum), re.M)
+    if sorted(variants) != sorted(names):
+        h.fail(f"Keyword::as_str of {KEYWORD} does not cover the variants of the enum: {sorted(variants)} vs {sorted(names)}")
+    cd = fn_body(h, src, "is_clause_delimiter", KEYWORD)
+    m = re.search(r"matches!\s*\(\s*\*?self\s*,([^)]*)\)", cd)
+    if m and "match self" not in cd:
+        true_names = re.findall(r"\b(?:Keyword::|Self::)?(\w+)\b", m.group(1))
+    else:
+        true_names, seen = [], []
+        for pat, val in re.findall(r"((?:\|?\s*(?:Keyword::|Self::)?\w+\s*)+)=>\s*(true|false)\b", cd):
+            ns = re.findall(r"(?:Keyword::|Self::)?(\w+)", pat)
+            seen += ns
+            if val == "true":
+                true_names += ns
+        if "_" in seen:
+            h.fail(f"is_clause_delimiter of {KEYWORD} has a wildcard arm: cannot classify")
+        if sorted(seen) != sorted(names):
+            h.fail(f"cannot classify is_clause_delimiter of {KEYWORD}: arms cover {sorted(seen)}")
+    for n in true_names:
+        if n not in names:
+            h.fail(f"is_clause_delimiter of {KEYWORD} names `{n}`, which is not a keyword")
+    return sorted(names.values()), sorted(names[n] for n in true_names)
+
+
 def input_consts(h):
     default, nul = read_delims(h)
     items = [
@@ -195,6 +231,12 @@ def input_consts(h):
     rev = undo_reversed(h)
     body += ("/-- `RedirGuard::undo_redirs` walks `saved_fds` last saved first (`.drain(..).rev()`), "
              f"{REDIR} -/\ndef UNDO_REVERSED : Bool := {'true' if rev else 'false'}\n\n")
+    kws, delims = keyword_tables(h)
+    lst = lambda xs: "[" + ", ".join(h.lean_str(x) for x in xs) + "]"
+    body += (f"/-- the reserved words of yash-syntax (`Keyword::as_str`), {KEYWORD} -/\n"
+             f"def KEYWORDS : List String := {lst(kws)}\n\n"
+             f"/-- those for which `Keyword::is_clause_delimiter` holds, {KEYWORD} -/\n"
+             f"def CLAUSE_DELIMS : List String := {lst(delims)}\n\n")
     h.write("InputConsts", body.rstrip("\n") + "\n")
 
 
